@@ -53,6 +53,7 @@ type loopInfo struct {
 	latches []int
 	spec    *LoopSpec
 	mods    map[string]bool
+	fieldMods map[string][]fieldMod // comps modified only through p.f stores with loop-invariant p
 	m0      string // measure at head
 	headHeap Heap
 	lets    map[string]Val
@@ -161,6 +162,7 @@ func (fr *Frame) findLoops() {
 		for bi := range li.body {
 			fr.u.eng.blockMods(fn.Blocks[bi], li.mods, 0)
 		}
+		fr.refineFieldMods(li)
 	}
 }
 
@@ -606,7 +608,25 @@ func (fr *Frame) loopHead(b *ssa.BasicBlock, li *loopInfo) Heap {
 	for _, c := range sortedKeys(li.mods) {
 		s, ok := u.comps[c]
 		if !ok {
-			continue // component never materialised so far: lazily created later as initial... must havoc anyway
+			continue // component never materialised so far: handled below
+		}
+		if fms, precise := li.fieldMods[c]; precise {
+			// only the listed fields of loop-invariant objects change
+			cur := heap[c]
+			if cur == "" {
+				cur = u.comp(heap, c, s)
+			}
+			for _, fm := range fms {
+				ref := fr.valOf(fm.ptr).T
+				st := derefType(fm.ptr.Type())
+				ss := u.so.sortOf(st)
+				ft := st.Underlying().(*types.Struct).Field(fm.field).Type()
+				nv := u.fresh("loopfield_"+st.Underlying().(*types.Struct).Field(fm.field).Name(), u.so.sortOf(ft))
+				u.assume(u.typeInv(nv, ft, "1152921504606846976"))
+				cur = u.define(c+"_loop", s, sto(cur, ref, u.so.setField(ss, sel(cur, ref), fm.field, nv)))
+			}
+			heap[c] = cur
+			continue
 		}
 		heap[c] = u.fresh(c+"_loop", s)
 	}
@@ -780,4 +800,69 @@ func (fr *Frame) activeInvs(li *loopInfo) []*Clause {
 		out = append(out, inv)
 	}
 	return out
+}
+
+type fieldMod struct {
+	ptr   ssa.Value
+	field int
+}
+
+// refineFieldMods: a struct component whose only writes in the loop are stores
+// to fields p.f of objects p that are defined outside the loop is havoced
+// field-wise instead of wholesale.
+func (fr *Frame) refineFieldMods(li *loopInfo) {
+	u := fr.u
+	li.fieldMods = map[string][]fieldMod{}
+	whole := map[string]bool{}
+	cand := map[string][]fieldMod{}
+	inLoop := func(v ssa.Value) bool {
+		if ins, ok := v.(ssa.Instruction); ok && ins.Block() != nil {
+			return li.body[ins.Block().Index]
+		}
+		return false
+	}
+	for bi := range li.body {
+		for _, ins := range fr.fn.Blocks[bi].Instrs {
+			switch x := ins.(type) {
+			case *ssa.Store:
+				fa, ok := x.Addr.(*ssa.FieldAddr)
+				if ok {
+					if _, nested := fa.X.(*ssa.FieldAddr); !nested {
+						if _, isPtr := fa.X.Type().Underlying().(*types.Pointer); isPtr && !inLoop(fa.X) {
+							if _, isG := fa.X.(*ssa.Global); !isG {
+								c, _ := u.memComp(derefType(fa.X.Type()))
+								dup := false
+								for _, e := range cand[c] {
+									if e.ptr == fa.X && e.field == fa.Field {
+										dup = true
+									}
+								}
+								if !dup {
+									cand[c] = append(cand[c], fieldMod{fa.X, fa.Field})
+								}
+								continue
+							}
+						}
+					}
+				}
+				// any other store: whole component
+				m := map[string]bool{}
+				u.eng.instrMods(ins, m, 0)
+				for c := range m {
+					whole[c] = true
+				}
+			case *ssa.Call, *ssa.Defer:
+				m := map[string]bool{}
+				u.eng.instrMods(ins, m, 0)
+				for c := range m {
+					whole[c] = true
+				}
+			}
+		}
+	}
+	for c, fms := range cand {
+		if !whole[c] && strings.HasPrefix(c, "M_") {
+			li.fieldMods[c] = fms
+		}
+	}
 }
